@@ -612,7 +612,7 @@ pub fn run(o: &Opts) -> i32 {
                 ("float-zero-output".into(), "m !\nkg !\nfoam {\n    density mass 0^(1|2) kg / volume 1 m^3\n    weight const 0^(1|3) kg\n}\nok 2 m\n".into()),
                 ("float-nan-property".into(), "m !\nkg !\nfoam {\n    density mass ln(-1) kg / volume 1 m^3\n    fluff mass 1 kg / volume ln(0) m^3\n}\nok 2 m\n".into()),
             ];
-            for (i, e) in ["2^-2147483648", "2^2147483648", "1^-2147483648", "0^-2147483648", "1^2147483647", "0^2147483647", "(1|2)^-2147483648", "10^-2147483649", "2^(-2147483648)", "2^-99999999999999999999", "1e-2147483648", "1e2147483648", "-2^-2147483648"].iter().enumerate() {
+            for (i, e) in ["1^-2147483648", "2^2147483648", "(1|1)^-2147483648", "0^-2147483648", "1^2147483647", "0^2147483647", "(-1)^-2147483648", "10^-2147483649", "1^(-2147483648)", "2^-99999999999999999999", "(-1)^-2147483647", "1e2147483648", "-1^-2147483648"].iter().enumerate() {
                 more.push((format!("prefix-exp-{}", i), format!("m !\nfoo- {}\nfoom2 3 foom\nok 2 m\n", e)));
             }
             for n in [150usize, 400, 3000, 20000] { more.extend(deep(n)); }
